@@ -1,5 +1,106 @@
 import Driver.Util
 import LemoModel.Ranking
+import LemoModel.CandCache
+
+/-! `cc` ops: the byte-level model of store.CandidateCache / RunContext.load (LemoModel/CandCache.lean) -/
+namespace Driver.C10.CC
+open LemoModel.CandCache
+
+def hexVal (c : Char) : Option Nat :=
+  if '0' ≤ c ∧ c ≤ '9' then some (c.toNat - 48)
+  else if 'a' ≤ c ∧ c ≤ 'f' then some (c.toNat - 87)
+  else none
+
+def hexChars : List Char → Option (List UInt8)
+  | [] => some []
+  | [_] => none
+  | a :: b :: r => do
+    let x ← hexVal a
+    let y ← hexVal b
+    let t ← hexChars r
+    some (UInt8.ofNat (x * 16 + y) :: t)
+
+def parseHex (s : String) : Option (List UInt8) := if s == "-" then some [] else hexChars s.toList
+def showHex (l : List UInt8) : String := if l.isEmpty then "-" else LemoModel.Rlp.hexOf l
+
+def ltB : List UInt8 → List UInt8 → Bool
+  | [], [] => false
+  | [], _ => true
+  | _, [] => false
+  | x :: xs, y :: ys => if x.toNat < y.toNat then true else if y.toNat < x.toNat then false else ltB xs ys
+
+def insBy {α : Type} (lt : α → α → Bool) (x : α) : List α → List α
+  | [] => [x]
+  | y :: ys => if lt x y then x :: y :: ys else y :: insBy lt x ys
+def sortBy {α : Type} (lt : α → α → Bool) (l : List α) : List α := l.foldr (insBy lt) []
+
+def showMap (m : PosMap) : String :=
+  if m.isEmpty then "-" else
+  ",".intercalate ((sortBy (fun (a b : Addr × Pos) => ltB a.1 b.1) m).map fun e => s!"{showHex e.1}:{e.2.pos}:{e.2.len}")
+
+def showState (c : Cache) : String :=
+  s!"cur={c.cur} cap={c.cap} len={c.buf.length} map={showMap c.cands} buf={showHex (persist c)}"
+
+def showList (l : List (Addr × Nat)) : String :=
+  if l.isEmpty then "ok -" else
+  "ok " ++ " ".intercalate ((sortBy (fun (a b : Addr × Nat) => ltB a.1 b.1 || (a.1 == b.1 && a.2 < b.2)) l).map
+    fun e => s!"{showHex e.1}:{e.2}")
+
+def parseInt (s : String) : Option Int :=
+  if s.startsWith "-" then (s.drop 1).toNat?.map (fun n => - (n : Int)) else s.toNat?.map (fun n => (n : Int))
+
+def outCache (r : Out Cache) : Cache × String :=
+  match r with
+  | .ok c => (c, "ok " ++ showState c)
+  | .err e => (fresh, "err:" ++ e)
+  | .panic s => (fresh, "panic:" ++ s)
+
+def step (c : Cache) (w : List String) : Cache × String :=
+  match w with
+  | ["new"] => (fresh, "ok")
+  | ["set", a, t] =>
+    match parseHex a, parseInt t with
+    | some a, some t =>
+      match setI c a t with
+      | .ok c' => (c', "ok " ++ showState c')
+      | .err e => (c, "err:" ++ e ++ " " ++ showState c)
+      | .panic s => (fresh, "panic:" ++ s)
+    | _, _ => (c, "bad-op")
+  | ["list"] =>
+    match getCandidates c with
+    | .ok l => (c, showList l)
+    | _ => (c, "fail")
+  | ["reload"] =>
+    -- Encode + encodeBody's copy, then Decode into a fresh cache as load does (an empty list is not decoded at all)
+    let n := u32 c.cur
+    if n = 0 then (fresh, "fresh " ++ showState fresh)
+    else
+      match decode fresh (persist c) n n with
+      | .done c' => (c', "done " ++ showState c')
+      | .failed c' => (c', "failed " ++ showState c')
+      | .panic s => (fresh, "panic:" ++ s)
+  | ["reopen"] =>
+    let file := flushFile c 0
+    let (c', o) := outCache (loadFile file)
+    (c', o ++ " file=" ++ showHex file)
+  | ["load", f] =>
+    match parseHex f with
+    | some f => outCache (loadFile f)
+    | none => (c, "bad-op")
+  | ["decode", blen, len, arr] =>
+    match blen.toNat?, len.toNat?, parseHex arr with
+    | some blen, some len, some arr =>
+      if arr.length < blen then (c, "bad-op")
+      else
+        match decode fresh arr blen len with
+        | .done c' => (c', "done " ++ showState c')
+        | .failed c' => (c', "failed " ++ showState c')
+        | .panic s => (fresh, "panic:" ++ s)
+    | _, _, _ => (c, "bad-op")
+  | _ => (c, "bad-op")
+
+end Driver.C10.CC
+
 namespace Driver.C10
 open LemoModel LemoModel.Ranking Driver
 
@@ -8,6 +109,7 @@ structure St where
   blocks : List (Nat × Blk) := []     -- LastConfirm + UnConfirmBlocks, keyed by the harness' block id
   stable : Nat := 0                   -- id of LastConfirm
   persist : List Cand := []           -- Context.Candidates
+  cc : LemoModel.CandCache.Cache := {} -- the byte-level candidate cache of the `cc` ops
 
 def getBlk (s : St) (id : Nat) : Option Blk := (s.blocks.find? (fun p => p.1 == id)).map (·.2)
 
@@ -81,6 +183,9 @@ def splitAt (sep : String) : List String → List String × List String
 
 def step (s : St) (w : List String) : St × String :=
   match w with
+  | "cc" :: rest =>
+    let (cc', o) := CC.step s.cc rest
+    ({ s with cc := cc' }, o)
   | ["max", m] =>
     match m.toNat? with
     | some m => ({ s with max := m }, "ok")
